@@ -7,6 +7,7 @@ import J1939.Model.Ecu
 import J1939.Model.Dm1
 import J1939.Model.Dll21
 import J1939.Model.Ca
+import J1939.Model.Listener
 namespace J1939.Driver
 open J1939 J1939.Gen
 
@@ -281,6 +282,10 @@ def step (st : St) (line : String) : St × List String :=
     | some i => withCa st i fun c =>
         (c, [s!"ca {c.state} {c.announced} {showOptNat c.addr} {showOptNat (Ca.deviceAddress c)}"])
     | none => (st, ["bad-args"])
+  | ["listener", a, b, c, d] =>
+    match a.toNat?, b.toNat?, c.toNat?, d.toNat? with
+    | some a, some b, some c, some d => (st, [if Listener.forwards (a != 0) (b != 0) (c != 0) (d != 0) then "forward" else "drop"])
+    | _, _, _, _ => (st, ["bad-args"])
   | ["dm1.send", pgn, lamps, flat] =>
     match pgn.toNat?, parseList lamps, parseList flat with
     | some pgn, some lamps, some flat =>
